@@ -2,12 +2,12 @@ package checks
 
 import (
 	"bytes"
-	"sort"
 	"encoding/json"
 	"fmt"
 	"os"
 	"os/exec"
 	"path/filepath"
+	"sort"
 	"strconv"
 	"strings"
 	"syscall"
@@ -93,11 +93,8 @@ func c08Child(args []string) {
 		if !inRequest {
 			return
 		}
-		if phase != "pre" {
-			// the state after a call is the state before the next one (or before the acknowledgement, which is a
-			// point of its own): one kill point per call is enough
-			return
-		}
+		// both before and after each call of the emulator's own code: what follows a call may be row writes (no
+		// file-system call of the emulator), e.g. the purge after the definition has been renamed into place
 		switch op {
 		case "MkdirAll", "WriteFile", "Rename", "RemoveAll", "Remove", "unlink", "OpenFile+create":
 			point(phase + ":" + op)
